@@ -438,6 +438,15 @@ class RefBuilder:
             self.ver = u(1)
         elif n == "psub":
             self.sub = u(1)
+        elif n == "pq":
+            # a direct edit of `parts.qualifiers` through the collection's own API: the reference map does the same
+            rq = RefQuals(self.uni)
+            rq.m = self.q
+            try:
+                rq.step(st[3:], sep=".")
+            except Exception:   # noqa: a step the reference does not know
+                self.unsupported = True
+            self.q = rq.m
         else:
             self.unsupported = True
 
@@ -828,7 +837,7 @@ class RefQuals:
                 self.m[ascii_lower(k)] = u(2)
                 return "."
             return "PANIC"
-        if n == "tfi":
+        if n in ("tfi", "cf"):
             new = {}
             args = a[1:]
             for i in range(0, len(args) - 1, 2):
@@ -849,6 +858,16 @@ class RefQuals:
             if n == "eqk":
                 return "T" if ka == ob else "F"
             return "lt" if ka < ob else ("gt" if ka > ob else "eq")
+        if n == "tgck":
+            t = self.m.get("checksum")
+            if t is None:
+                return "~"
+            rc = RefCksum(self.uni)
+            r = rc.step("of:" + hx(t))
+            if r != "OK":
+                return r
+            tx = rc.text()
+            return ("ERR:InvalidQualifier:" + hx("Invalid qualifier")) if tx is None else hx(tx)
         if n in ("gett", "hast", "rmt") and int(a[1]) >= len(TYPED_KEYS):
             # the user-defined INVALID key: simply absent for lookups and removal
             return {"gett": "~", "hast": "F", "rmt": "."}[n]
@@ -1274,6 +1293,17 @@ def oracle_C16(ctx, cases, answers):
                 is_str = False
             if not is_str and not a.startswith("ERR:serde"):
                 v.append((i, "a value that is not a string (%r) is not refused: %s" % (c["doc"], a[:100])))
+        elif st == "dev-string":
+            ref = answers[c["reference"]]
+            rp = fields(ref).get("p", ref)
+            if rp.startswith("OK:"):
+                if a != rp:
+                    v.append((i, "deserialising the %s value %r gives %s, parsing the same string gives %s" % (c["kind"], c["s"][:80], a[:100], rp[:100])))
+            elif rp.startswith("ERR:") and not a.startswith("ERR:serde"):
+                v.append((i, "parsing %r fails but deserialising it as a %s value gives %s" % (c["s"][:80], c["kind"], a[:100])))
+        elif st == "dev-other":
+            if not a.startswith("ERR:serde"):
+                v.append((i, "a %s value (payload %r) is not a string value but is not refused: %s" % (c["kind"], c["s"][:60], a[:100])))
         elif st == "pt":
             f = fields(a)
             name = c["ident"].lower()
